@@ -73,3 +73,6 @@ props/C06.vos props/C06.vok props/C06.required_vos: props/C06.v theories/Base/Hi
 props/C09.vo props/C09.glob props/C09.v.beautified props/C09.required_vo: props/C09.v theories/Graph/Closure.vo
 props/C09.vio: props/C09.v theories/Graph/Closure.vio
 props/C09.vos props/C09.vok props/C09.required_vos: props/C09.v theories/Graph/Closure.vos
+props/C04.vo props/C04.glob props/C04.v.beautified props/C04.required_vo: props/C04.v theories/Base/Hier.vo theories/Base/Ty.vo theories/Sub/Match.vo theories/Sub/SubSpec.vo theories/Infer/Store.vo theories/Infer/Engine.vo theories/Infer/Run.vo theories/Infer/Witness.vo theories/Infer/Check.vo
+props/C04.vio: props/C04.v theories/Base/Hier.vio theories/Base/Ty.vio theories/Sub/Match.vio theories/Sub/SubSpec.vio theories/Infer/Store.vio theories/Infer/Engine.vio theories/Infer/Run.vio theories/Infer/Witness.vio theories/Infer/Check.vio
+props/C04.vos props/C04.vok props/C04.required_vos: props/C04.v theories/Base/Hier.vos theories/Base/Ty.vos theories/Sub/Match.vos theories/Sub/SubSpec.vos theories/Infer/Store.vos theories/Infer/Engine.vos theories/Infer/Run.vos theories/Infer/Witness.vos theories/Infer/Check.vos
